@@ -128,3 +128,78 @@ func c15Idle(r *Result) {
 		}
 	}
 }
+
+// c15SlowHandshake: "arms a fresh read deadline before waiting for each request (and for the TLS handshake)": the handshake and
+// the first request each get their own deadline. A TLS peer starts its handshake 0.6 T after connecting and sends its first
+// request 0.6 T after the handshake (each wait shorter than T, the two together longer): the request must be answered - with and
+// without a SessionAuthHandler, whose presence must not change how deadlines are armed.
+func c15SlowHandshake(r *Result) {
+	const T = 400 * time.Millisecond
+	ca := tlsm.NewCA("c15s-ca")
+	serverCert := tlsm.Leaf(ca, tlsm.LeafOpts{Host: "kmip.test"})
+	clientCert := tlsm.Leaf(ca, tlsm.LeafOpts{Host: "client.test", Client: true})
+	type outcome struct {
+		key, obs string
+	}
+	var mu sync.Mutex
+	var outs []outcome
+	var wg sync.WaitGroup
+	for _, withAuth := range []bool{false, true} {
+		withAuth := withAuth
+		key := fmt.Sprintf("TLS peer handshaking 0.6 T after connecting and sending its first request 0.6 T after the handshake (T = %v, SessionAuthHandler configured: %v)", T, withAuth)
+		r.eval(key, true)
+		wg.Add(1)
+		go func() {
+			defer wg.Done()
+			cfg := &tls.Config{Certificates: []tls.Certificate{serverCert}, ClientCAs: ca.Pool}
+			kmip.DefaultServerTLSConfig(cfg)
+			s := &kmip.Server{TLSConfig: cfg, ReadTimeout: T, WriteTimeout: T}
+			if withAuth {
+				s.SessionAuthHandler = func(c net.Conn) (interface{}, error) { return 1, nil }
+			}
+			sc, cc := rec.Pipe()
+			l := rec.NewListener()
+			l.Push(rec.AcceptStep{Conn: tls.Server(rec.NewConn(sc, 1), cfg)})
+			init := make(chan struct{})
+			ret := make(chan error, 1)
+			go func() { ret <- s.Serve(l, init) }()
+			<-init
+			_ = cc.SetDeadline(time.Now().Add(6 * time.Second))
+			tc := tls.Client(cc, &tls.Config{RootCAs: ca.Pool, ServerName: "kmip.test", Certificates: []tls.Certificate{clientCert}})
+			obs := ""
+			time.Sleep(T * 6 / 10)
+			if err := tc.Handshake(); err != nil {
+				obs = "handshake begun 0.6 T after connecting failed: " + err.Error()
+			} else {
+				time.Sleep(T * 6 / 10)
+				req := kmip.Request{Header: kmip.RequestHeader{Version: kmip.ProtocolVersion{Major: 1, Minor: 4}, BatchCount: 1},
+					BatchItems: []kmip.RequestBatchItem{{Operation: kmip.OPERATION_DISCOVER_VERSIONS, RequestPayload: kmip.DiscoverVersionsRequest{}}}}
+				var resp kmip.Response
+				err := kmip.NewEncoder(tc).Encode(&req)
+				if err == nil {
+					err = kmip.NewDecoder(tc).Decode(&resp)
+				}
+				if err != nil {
+					obs = "first request, sent 0.6 T after the handshake, not answered: " + err.Error()
+				} else {
+					obs = "answered"
+				}
+			}
+			cc.Close()
+			ctx, cancel := context.WithTimeout(context.Background(), 5*time.Second)
+			_ = s.Shutdown(ctx)
+			cancel()
+			<-ret
+			mu.Lock()
+			outs = append(outs, outcome{key, obs})
+			mu.Unlock()
+		}()
+	}
+	wg.Wait()
+	for _, o := range outs {
+		r.Stats["slow-handshake-scenarios"]++
+		if o.obs != "answered" {
+			r.find(Finding{Kind: "violation", What: "the TLS handshake and the first request did not each get a fresh read deadline", Input: o.key, Expect: "answered", Actual: o.obs})
+		}
+	}
+}
